@@ -93,6 +93,12 @@ static inline void access(const void* p, bool write) {
     uintptr_t g = a >> 3; size_t h = (size_t)((g * 0x9e3779b97f4a7c15ULL) >> 48) & (TAB - 1);
     for (size_t i = 0; i < TAB; ++i) { Ent& e = tab[(h + i) & (TAB - 1)]; if (e.a == 0) e.a = g; if (e.a == g) { if (write) e.writers |= 1u << t; else e.readers |= 1u << t; if (arena::contains(p) && arena::owner(p) != arena::LIFETIME) e.writers |= 1u << arena::owner(p); return; } }
 }
+// a byte range touched by an uninstrumented bulk routine: every 8-byte granule of it that lies in static memory, the first one otherwise
+static inline void range(const void* p, size_t n, bool write) {
+    if (!on || tl_logical < 0 || !n) return; uintptr_t a = (uintptr_t)p;
+    if (a + n <= lo || a >= hi) { access(p, write); return; }
+    uintptr_t e = a + std::min<size_t>(n, 4096); for (uintptr_t x = a & ~(uintptr_t)7; x < e; x += 8) access((const void*)(x < a ? a : x), write);
+}
 }
 extern "C" {
 void __sanitizer_cov_trace_pc_guard_init(uint32_t* start, uint32_t* stop) { static uint32_t n = 0; if (start == stop || *start) return; for (uint32_t* x = start; x < stop; ++x) *x = ++n; }
@@ -113,6 +119,7 @@ void __wrap___cxa_guard_abort(void* g) { __real___cxa_guard_abort(g); --sched::t
 // the load/store monitor cannot see (it lives in libc), so the calls themselves are recorded (link-time --wrap)
 namespace unsafe { static uint32_t callers[16]; static const char* names[16] = { "inet_ntoa", "localtime", "gmtime", "ctime", "asctime", "strtok", "rand", "strerror", "gethostbyname", "ether_ntoa", "getservbyname", "setlocale", "HMAC(md=NULL)", "SHA1(md=NULL)", "MD5(md=NULL)" };
     static inline void note(int i) { if (mon::on && mon::tl_logical >= 0) callers[i] |= 1u << mon::tl_logical; } }
+#include <stdarg.h>
 #include <arpa/inet.h>
 #include <netdb.h>
 #include <netinet/ether.h>
@@ -130,6 +137,16 @@ struct hostent* __real_gethostbyname(const char*); struct hostent* __wrap_gethos
 char* __real_ether_ntoa(const struct ether_addr*); char* __wrap_ether_ntoa(const struct ether_addr* a) { unsafe::note(9); return __real_ether_ntoa(a); }
 struct servent* __real_getservbyname(const char*, const char*); struct servent* __wrap_getservbyname(const char* a, const char* b) { unsafe::note(10); return __real_getservbyname(a, b); }
 char* __real_setlocale(int, const char*); char* __wrap_setlocale(int c, const char* l) { unsafe::note(11); return __real_setlocale(c, l); }
+// bulk writers of libc are not instrumented: a copy / fill / formatted print into static memory (or into another thread's heap) made by library
+// code would be invisible to the load/store monitor, so the calls themselves report their ranges
+void* __real_memcpy(void*, const void*, size_t); void* __wrap_memcpy(void* d, const void* s, size_t n) { mon::range(d, n, true); mon::range(s, n, false); return __real_memcpy(d, s, n); }
+void* __real_memmove(void*, const void*, size_t); void* __wrap_memmove(void* d, const void* s, size_t n) { mon::range(d, n, true); mon::range(s, n, false); return __real_memmove(d, s, n); }
+void* __real_memset(void*, int, size_t); void* __wrap_memset(void* d, int c, size_t n) { mon::range(d, n, true); return __real_memset(d, c, n); }
+char* __real_strcpy(char*, const char*); char* __wrap_strcpy(char* d, const char* s) { mon::range(d, strlen(s) + 1, true); return __real_strcpy(d, s); }
+char* __real_strncpy(char*, const char*, size_t); char* __wrap_strncpy(char* d, const char* s, size_t n) { mon::range(d, n, true); return __real_strncpy(d, s, n); }
+int __real_vsnprintf(char*, size_t, const char*, va_list); int __wrap_vsnprintf(char* d, size_t n, const char* f, va_list ap) { if (d && n) mon::range(d, 1, true); return __real_vsnprintf(d, n, f, ap); }
+int __wrap_snprintf(char* d, size_t n, const char* f, ...) { if (d && n) mon::range(d, 1, true); va_list ap; va_start(ap, f); int r = __real_vsnprintf(d, n, f, ap); va_end(ap); return r; }
+int __wrap_sprintf(char* d, const char* f, ...) { mon::range(d, 1, true); va_list ap; va_start(ap, f); int r = vsprintf(d, f, ap); va_end(ap); return r; }
 // OpenSSL one-shot digests write into a function-static buffer when the caller passes no output buffer (documented as not thread safe)
 unsigned char* __real_HMAC(const void*, const void*, int, const unsigned char*, size_t, unsigned char*, unsigned int*);
 unsigned char* __wrap_HMAC(const void* e, const void* k, int kl, const unsigned char* d, size_t n, unsigned char* md, unsigned int* ml) { if (!md) unsafe::note(12); return __real_HMAC(e, k, kl, d, n, md, ml); }
@@ -211,11 +228,22 @@ static uint64_t run_op(const KV& k, ThreadState& ts, uint64_t h) {
         else if (op == "build") {
             uint32_t v = (uint32_t)k.u64("v"); EthernetII e = EthernetII("00:01:02:03:04:05", "00:0a:0b:0c:0d:0e") / IP(IPv4Address(fmt("10.1.%u.%u", v & 0xff, (v >> 8) & 0xff)), IPv4Address("10.0.0.1")) / TCP((uint16_t)(v >> 16), 1000) / RawPDU(fmt("payload-%u", v));
             e.rfind_pdu<TCP>().mss((uint16_t)(v & 0x7fff)); e.rfind_pdu<TCP>().seq(v); PDU::serialization_type s = e.serialize(); h = H(h, s.data(), s.size()); EthernetII f(s.data(), (uint32_t)s.size()); h = Hu(h, f.rfind_pdu<TCP>().mss());
+            // management frame with the WPA2-PSK RSN preset, ICMP / ICMPv6 errors with RFC 4884 extensions, IPv6 with a routing-less extension chain, DHCP
+            { Dot11Beacon b; b.addr1(Dot11::BROADCAST); b.addr2(HWAddress<6>(fmt("00:01:02:03:%02x:%02x", v & 0xff, (v >> 8) & 0xff))); b.addr3(b.addr2()); b.ssid(fmt("net-%u", v % 1000)); b.ds_parameter_set((uint8_t)(1 + v % 13)); b.supported_rates(Dot11ManagementFrame::rates_type(3, 1.0f + (float)(v % 5)));
+              b.rsn_information(RSNInformation::wpa2_psk()); PDU::serialization_type sb = b.serialize(); h = H(h, sb.data(), sb.size()); Dot11Beacon pb(sb.data(), (uint32_t)sb.size()); RSNInformation ri = pb.rsn_information(); h = Hu(h, ri.pairwise_cyphers().size()); h = Hu(h, ri.akm_cyphers().size()); }
+            // (which of the two families comes first depends on the op's value: nothing may depend on who asked first)
+            for (int pass = 0; pass < 2; ++pass) { const bool v6_now = ((v >> 2) & 1) ? pass == 0 : pass == 1;
+            if (!v6_now){ Bytes quoted((size_t)(20 + v % 150), (uint8_t)v); ICMP ic(ICMP::TIME_EXCEEDED); ic.inner_pdu(RawPDU(quoted.data(), (uint32_t)quoted.size())); Bytes ep((size_t)(4 + (v >> 3) % 12), 0x42); ic.extensions().add_extension(ICMPExtension(1, 1)); { ICMPExtension ex(2, (uint8_t)(v % 7)); ex.payload(ICMPExtension::payload_type(ep.begin(), ep.end())); ic.extensions().add_extension(ex); } if (v & 1) ic.use_length_field(true);
+              IP ip4 = IP("10.0.0.9", "10.0.0.1") / ic; PDU::serialization_type s4 = ip4.serialize(); h = H(h, s4.data(), s4.size()); try { IP back(s4.data(), (uint32_t)s4.size()); h = Hu(h, back.rfind_pdu<ICMP>().has_extensions()); h = Hu(h, back.rfind_pdu<ICMP>().length()); } catch (exception_base& e) { h = Hs(h, typeid(e).name()); } }
+            else{ Bytes quoted((size_t)(40 + (v >> 5) % 150), (uint8_t)(v >> 8)); ICMPv6 i6(ICMPv6::TIME_EXCEEDED); i6.inner_pdu(RawPDU(quoted.data(), (uint32_t)quoted.size())); i6.extensions().add_extension(ICMPExtension(1, 1)); if (v & 2) i6.use_length_field(true);
+              IPv6 ip6 = IPv6("2001:db8::1", "2001:db8::2") / i6; PDU::serialization_type s6 = ip6.serialize(); h = H(h, s6.data(), s6.size()); try { IPv6 back(s6.data(), (uint32_t)s6.size()); h = Hu(h, back.rfind_pdu<ICMPv6>().has_extensions()); h = Hu(h, back.rfind_pdu<ICMPv6>().length()); } catch (exception_base& e) { h = Hs(h, typeid(e).name()); } }
+            }
+            { DHCP dh; dh.type(DHCP::DISCOVER); dh.hostname(fmt("host-%u", v % 997)); dh.requested_ip(IPv4Address(fmt("10.9.%u.%u", v & 0xff, (v >> 8) & 0xff))); dh.end(); PDU::serialization_type sd = dh.serialize(); h = H(h, sd.data(), sd.size()); DHCP back(sd.data(), (uint32_t)sd.size()); h = Hs(h, back.hostname()); }
             RadioTap rt; rt.channel(2412 + v % 60, 0xa0); rt.rate((uint8_t)(v % 100)); rt.dbm_signal((int8_t)-(int)(v % 90)); rt.inner_pdu(Dot11Data()); PDU::serialization_type s2 = rt.serialize(); h = H(h, s2.data(), s2.size());
         }
         else if (op == "follow") {
             if (!ts.fol) { ts.fol.reset(new TCPIP::StreamFollower()); ThreadState* self = &ts; ts.fol->new_stream_callback([self](TCPIP::Stream& s) { s.client_data_callback([self](TCPIP::Stream& x) { self->fol_bytes = fnv1a(x.client_payload().data(), x.client_payload().size(), self->fol_bytes); }); s.server_data_callback([self](TCPIP::Stream& x) { self->fol_bytes = fnv1a(x.server_payload().data(), x.server_payload().size(), self->fol_bytes); }); }); }
-            Bytes f = k.bytes("f"); EthernetII e(f.data(), (uint32_t)f.size()); Packet pk(e, Timestamp(std::chrono::microseconds(k.num("t")))); ts.fol->process_packet(pk); h = Hu(h, ts.fol_bytes);
+            Bytes f = k.bytes("f"); EthernetII e(f.data(), (uint32_t)f.size()); Packet pk(e, Timestamp(std::chrono::microseconds(k.num("ts")))); ts.fol->process_packet(pk); h = Hu(h, ts.fol_bytes);
         }
         else if (op == "wep") { const auto& fx = gen::Fixtures::get(); Crypto::WEPDecrypter d; d.add_password("00:12:bf:12:32:29", k.num("bad") ? "\x1f\x1f\x1f\x1f\x1e" : "\x1f\x1f\x1f\x1f\x1f"); for (auto& fr : fx.by.count("dot11") ? fx.by.find("dot11")->second : std::vector<std::pair<std::string, Bytes> >()) { if (fr.first.find("wep_decrypt") == std::string::npos) continue; std::unique_ptr<PDU> p(Dot11::from_bytes(fr.second.data(), (uint32_t)fr.second.size())); bool ok = d.decrypt(*p); h = Hu(h, ok); if (ok) { PDU::serialization_type s = p->serialize(); h = H(h, s.data(), s.size()); } } }
     }
@@ -289,7 +317,7 @@ struct ThrEngine : Engine {
                     case 6: k.set("op", "build").setu("v", cfg.next() & 0xffffffffu); break;
                     default: { if (cfg.chance(0.2)) { k.set("op", "wep").set("bad", cfg.chance(0.3) ? 1 : 0); break; }
                         TcpSeg s; s.sport = 1000; s.dport = 80; s.seq = 100 + (uint32_t)(i * 10); s.ack = 1; s.flags = i == 0 ? TH_SYN : (TH_ACK | TH_PSH); if (i) s.payload = wl.bytes(10); Addr a = Addr::v4(10, 0, (uint8_t)t, 1), b = Addr::v4(10, 0, (uint8_t)t, 2); if (i == 0) s.seq = 109 - 10;
-                        k.set("op", "follow").set("t", ft += 1000).set("f", tcp_frame(s, a, b, Mac::of(1), Mac::of(2), (uint16_t)i)); break; }
+                        k.set("op", "follow").set("ts", ft += 1000).set("f", tcp_frame(s, a, b, Mac::of(1), Mac::of(2), (uint16_t)i)); break; }
                 }
                 p.steps.push_back(k.line());
             }
@@ -299,7 +327,7 @@ struct ThrEngine : Engine {
 
     Verdict execute(const Plan& p, RunStats& st, Trace& tr) {
         int K = (int)p.cfg.num("threads", 2); std::vector<std::vector<KV> > ops(K);
-        for (auto& l : p.steps) { KV k(l); int t = (int)k.num("t"); if (t >= 0 && t < K) ops[t].push_back(k); }
+        for (auto& l : p.steps) { KV k(l); int t = (int)k.num("t"); if (t >= 0 && t < K) { ops[t].push_back(k); st.inc("probe.op." + k.str("op")); } else st.inc("probe.op_of_no_thread"); }
         std::vector<uint64_t> seq(K, 0), con(K, 0);
         // one-time initialisations (function-local statics, OpenSSL/libpcap lazy setup) must not depend on the history of the
         // process: the first execution in any process (worker, minimiser child, replay) first runs every op of the plan once, unmonitored
@@ -313,7 +341,7 @@ struct ThrEngine : Engine {
             const char* sets[3] = { "ccmp_packets", "tkip_packets", "ccmp_qos_packets" }; for (int i = 0; i < 3; ++i) { KV k; k.set("op", "wpa2").set("set", sets[i]); run_op(k, ts, 0); }
             { KV k; k.set("op", "frag").set("pl", Bytes(64, 1)).set("mtu", 16).set("id", 1).set("ord", 0); run_op(k, ts, 0); KV d; d.set("op", "dns").set("id", 1).set("n", 2); run_op(d, ts, 0); KV a; a.set("op", "addr").setu("v", 12345); run_op(a, ts, 0); KV b; b.set("op", "build").setu("v", 777); run_op(b, ts, 0); KV w; w.set("op", "wep").set("bad", 0); run_op(w, ts, 0);
               KV p; p.set("op", "pmk").set("psk", "warmup-pass").set("ssid", "warmup-net"); run_op(p, ts, 0);
-              TcpSeg sg; sg.sport = 1; sg.dport = 2; sg.seq = 5; sg.flags = TH_SYN; KV fo; fo.set("op", "follow").set("t", 1).set("f", tcp_frame(sg, Addr::v4(1, 1, 1, 1), Addr::v4(2, 2, 2, 2), Mac::of(1), Mac::of(2))); run_op(fo, ts, 0); }
+              TcpSeg sg; sg.sport = 1; sg.dport = 2; sg.seq = 5; sg.flags = TH_SYN; KV fo; fo.set("op", "follow").set("ts", 1).set("f", tcp_frame(sg, Addr::v4(1, 1, 1, 1), Addr::v4(2, 2, 2, 2), Mac::of(1), Mac::of(2))); run_op(fo, ts, 0); }
             ts = ThreadState(); mon::tl_logical = -1; } }
         sched::on_thread_start = mon::note_stack; mon::note_stack(); mon::reset(); arena::reset(); memset(unsafe::callers, 0, sizeof unsafe::callers);
         auto sequential = [&]() { for (int t = 0; t < K; ++t) { ThreadState ts; uint64_t h = 0xC18; mon::tl_logical = t; mon::on = true; for (auto& k : ops[t]) h = run_op(k, ts, h); mon::on = false; mon::tl_logical = -1; seq[t] = h; } };
